@@ -24,7 +24,7 @@ use std::path::{Path, PathBuf};
 
 const STREAM: u64 = 71;
 
-fn scrut_bin() -> String {
+pub(crate) fn scrut_bin() -> String {
     std::env::var("SCRUT_BIN").unwrap_or("/verif/.build/repo-target/debug/scrut".into())
 }
 
@@ -37,7 +37,7 @@ fn tmproot(what: &str) -> PathBuf {
 
 /// lines the payloads are made of: plain text (few, so that repeats occur), trailing blanks, wildcard characters,
 /// control bytes, ANSI sequences, non-ASCII and invalid UTF-8, and lines shaped like document syntax
-const LINES: [&[u8]; 37] = [
+pub(crate) const LINES: [&[u8]; 37] = [
     b"C:\\Users\\me", b"a\\bc", b"total: *", b"x", b"x", b"foo", b"foo", b"foo ", b"foo  ", b"bar", b"alpha", b"beta gamma", b"line 3", b"  indented", b"", b"0123",
     b"a*b", b"what?", b"back\\slash", b"tab\there", b"bell\x07", b"esc \x1b[1mbold\x1b[0m", b"caf\xc3\xa9", b"\xe2\x9c\x93 ok",
     b"bad \xff byte", b"foo (glob)", b"bar (?)", b"baz (no-eol)", b"[3]", b"$ dollar", b"> greater", b"# hash", b"cr\rmid",
@@ -45,7 +45,7 @@ const LINES: [&[u8]; 37] = [
 ];
 
 #[derive(Clone, Copy, PartialEq, Debug)]
-enum Cfg {
+pub(crate) enum Cfg {
     None,
     Stderr,
     Stdout,
@@ -58,7 +58,7 @@ enum Cfg {
 }
 
 impl Cfg {
-    fn text(self) -> &'static str {
+    pub(crate) fn text(self) -> &'static str {
         match self {
             Cfg::None => "",
             Cfg::Stderr => " {output_stream: stderr}",
@@ -72,7 +72,7 @@ impl Cfg {
         }
     }
     /// the configuration the parser builds for the block (inline over `default_markdown`)
-    fn config(self) -> TestCaseConfig {
+    pub(crate) fn config(self) -> TestCaseConfig {
         let mut c = TestCaseConfig::default_markdown();
         match self {
             Cfg::None => {}
@@ -90,7 +90,7 @@ impl Cfg {
         }
         c
     }
-    fn skip_code(self) -> i32 {
+    pub(crate) fn skip_code(self) -> i32 {
         if self == Cfg::Skip3 {
             3
         } else {
@@ -100,7 +100,7 @@ impl Cfg {
 }
 
 #[derive(Clone, Copy, PartialEq, Debug)]
-enum Mode {
+pub(crate) enum Mode {
     /// the expectations are exactly the lines of the test's own output, as scrut writes them
     Exact,
     /// … with quantifiers on some
@@ -114,6 +114,9 @@ enum Mode {
     MultilineRun,
     /// dropped / extra / changed / swapped expectations
     Stale,
+    /// two or three such changes at once: some expectations still match, some lines are unexpected, some expectations
+    /// match nothing (only generated by updaterun.rs)
+    Mixed,
     /// no expectations
     Missing,
     /// the expectations describe the OTHER stream
@@ -125,7 +128,7 @@ enum Mode {
 }
 
 #[derive(Clone, Copy, PartialEq, Debug)]
-enum Expected {
+pub(crate) enum Expected {
     /// the exit code the command ends in (absent for 0)
     Right,
     /// `[0]` written out for a command that exits 0
@@ -136,22 +139,22 @@ enum Expected {
     Absent,
 }
 
-struct TSpec {
-    out: Vec<u8>,
-    err: Vec<u8>,
-    code: i32,
-    cfg: Cfg,
-    mode: Mode,
-    expected: Expected,
-    comment: bool,
+pub(crate) struct TSpec {
+    pub(crate) out: Vec<u8>,
+    pub(crate) err: Vec<u8>,
+    pub(crate) code: i32,
+    pub(crate) cfg: Cfg,
+    pub(crate) mode: Mode,
+    pub(crate) expected: Expected,
+    pub(crate) comment: bool,
     /// body lines between `$ cmd` and the closing fence
-    body: Vec<String>,
+    pub(crate) body: Vec<String>,
     /// NearMiss: an expectation was really changed (there was a plain one)
-    near_miss_changed: bool,
+    pub(crate) near_miss_changed: bool,
 }
 
 #[derive(Clone, Copy, PartialEq, Debug)]
-enum Broken {
+pub(crate) enum Broken {
     ExpectationBeforeCommand,
     ExitCodeTwice,
     BadInlineConfig,
@@ -162,18 +165,22 @@ enum Broken {
     ExtenderWithoutCommand,
 }
 
-struct Doc {
-    tests: Vec<TSpec>,
-    front_matter: bool,
-    crlf_document: bool,
-    broken: Option<(Broken, usize)>,
-    fillers: Vec<Vec<usize>>,
-    escaper: Escaper,
+pub(crate) struct Doc {
+    pub(crate) tests: Vec<TSpec>,
+    pub(crate) front_matter: bool,
+    pub(crate) crlf_document: bool,
+    pub(crate) broken: Option<(Broken, usize)>,
+    /// indices into `filler_table`, per gap (one more gap than tests)
+    pub(crate) fillers: Vec<Vec<usize>>,
+    pub(crate) filler_table: &'static [&'static str],
+    /// false: the document does not end in a line feed (updaterun.rs only)
+    pub(crate) final_newline: bool,
+    pub(crate) escaper: Escaper,
 }
 
-const FILLERS: [&str; 8] = ["Some prose.\n", "> quote\n", "    indented\n", "``inline`` code\n", "```python\nprint(1)\n$ not a test\n```\n", "### a heading\n", "text with ``` inside\n", "\n"];
+pub(crate) const FILLERS: [&str; 8] = ["Some prose.\n", "> quote\n", "    indented\n", "``inline`` code\n", "```python\nprint(1)\n$ not a test\n```\n", "### a heading\n", "text with ``` inside\n", "\n"];
 
-fn payload(rng: &mut Rng) -> Vec<u8> {
+pub(crate) fn payload(rng: &mut Rng) -> Vec<u8> {
     let n = match rng.below(10) {
         0 => 0,
         1..=3 => 1,
@@ -232,7 +239,7 @@ fn selected_bytes(cfg: Cfg, out: &[u8], err: &[u8], other_stream: bool) -> Vec<u
 /// the expectation lines scrut itself writes for the selected stream: the library generator on an outcome of a
 /// test without expectations. The selected bytes are put on BOTH streams of the outcome, so that the choice of
 /// `validate` does not matter here.
-fn own_lines(esc: &Escaper, cfg: Cfg, out: &[u8], err: &[u8], other_stream: bool) -> Vec<String> {
+pub(crate) fn own_lines(esc: &Escaper, cfg: Cfg, out: &[u8], err: &[u8], other_stream: bool) -> Vec<String> {
     let sel = selected_bytes(cfg, out, err, other_stream);
     let testcase = TestCase { title: "".into(), shell_expression: "cmd".into(), expectations: vec![], exit_code: None, line_number: 0, config: cfg.config() };
     let output = Output { stdout: sel.clone().into(), stderr: sel.into(), exit_code: ExitStatus::Code(0) };
@@ -302,7 +309,7 @@ fn globbed(rng: &mut Rng, exp: &str) -> String {
     format!("{pat} (glob{q})")
 }
 
-fn build_body(rng: &mut Rng, esc: &Escaper, t: &TSpec) -> Vec<String> {
+pub(crate) fn build_body(rng: &mut Rng, esc: &Escaper, t: &TSpec) -> Vec<String> {
     let own = own_lines(esc, t.cfg, &t.out, &t.err, false);
     let mut body: Vec<String> = match t.mode {
         Mode::Exact => own,
@@ -359,6 +366,30 @@ fn build_body(rng: &mut Rng, esc: &Escaper, t: &TSpec) -> Vec<String> {
                 _ => {
                     let at = rng.range(0, b.len());
                     b.insert(at, "an extra line".to_string());
+                }
+            }
+            b
+        }
+        Mode::Mixed => {
+            let mut b = own;
+            for _ in 0..rng.range(2, 3) {
+                match rng.below(4) {
+                    0 if !b.is_empty() => {
+                        let at = rng.below(b.len() as u64) as usize;
+                        b.remove(at);
+                    }
+                    1 if !b.is_empty() => {
+                        let at = rng.below(b.len() as u64) as usize;
+                        b[at] = format!("changed {}", b[at]);
+                    }
+                    2 if b.len() >= 2 => {
+                        let at = rng.below(b.len() as u64 - 1) as usize;
+                        b.swap(at, at + 1);
+                    }
+                    _ => {
+                        let at = rng.range(0, b.len());
+                        b.insert(at, rng.pick(&["an extra line", "another extra line", "foo", "x"]).to_string());
+                    }
                 }
             }
             b
@@ -476,7 +507,7 @@ fn gen_doc(seed: u64, idx: u64) -> Doc {
         None
     };
     let fillers = (0..=tests.len()).map(|_| (0..rng.range(0, 2)).map(|_| rng.below(FILLERS.len() as u64) as usize).collect()).collect();
-    Doc { tests, front_matter: rng.chance(1, 6), crlf_document: rng.chance(1, 10), broken, fillers, escaper }
+    Doc { tests, front_matter: rng.chance(1, 6), crlf_document: rng.chance(1, 10), broken, fillers, filler_table: &FILLERS, final_newline: true, escaper }
 }
 
 fn broken_block(b: Broken) -> &'static [u8] {
@@ -493,7 +524,7 @@ fn broken_block(b: Broken) -> &'static [u8] {
 }
 
 /// the bytes of the document
-fn render_doc(d: &Doc, dir: &Path) -> Vec<u8> {
+pub(crate) fn render_doc(d: &Doc, dir: &Path) -> Vec<u8> {
     let mut doc: Vec<u8> = vec![];
     if d.front_matter {
         doc.extend_from_slice(b"---\ntotal_timeout: 30s\n---\n");
@@ -501,7 +532,7 @@ fn render_doc(d: &Doc, dir: &Path) -> Vec<u8> {
     doc.extend_from_slice(b"# A document\n\nIntroduction.\n\n");
     let fill = |doc: &mut Vec<u8>, gap: usize| {
         for f in &d.fillers[gap] {
-            doc.extend_from_slice(FILLERS[*f].as_bytes());
+            doc.extend_from_slice(d.filler_table[*f].as_bytes());
         }
         if !d.fillers[gap].is_empty() {
             doc.push(b'\n');
@@ -534,6 +565,9 @@ fn render_doc(d: &Doc, dir: &Path) -> Vec<u8> {
     }
     fill(&mut doc, d.tests.len());
     doc.extend_from_slice(b"Text after the last test.\n");
+    if !d.final_newline {
+        doc.pop();
+    }
     if d.crlf_document {
         let mut v = Vec::with_capacity(doc.len() + 64);
         for b in doc {
@@ -547,7 +581,7 @@ fn render_doc(d: &Doc, dir: &Path) -> Vec<u8> {
     doc
 }
 
-fn short(s: &str, n: usize) -> String {
+pub(crate) fn short(s: &str, n: usize) -> String {
     s.chars().take(n).collect()
 }
 
@@ -622,7 +656,7 @@ fn run_binary_after(dir: &Path, doc_path: &Path, cram_first: bool) -> RanDoc {
     RanDoc { line, code, results, stderr }
 }
 
-fn runs_field(tests: &[(Vec<u8>, Vec<u8>, i32)]) -> String {
+pub(crate) fn runs_field(tests: &[(Vec<u8>, Vec<u8>, i32)]) -> String {
     if tests.is_empty() {
         "-".to_string()
     } else {
